@@ -81,8 +81,9 @@ CHECKS['C19'] = {
 CHECKS['C07'] = {
   'text': 'Coq round-trip theorems for all in-range values (prefix lengths fully symbolic) for IPv6 unicast (reach/unreach, next hops with and without '
           'link-local), route distinguishers, label stacks, VPNv4/VPNv6, IPv4/IPv6 labeled unicast, each under its exact guard with a kernel-checked '
-          'refuted witness per guard; flowspec operator lists proved, flowspec framing and EVPN types 1-4 covered by the round-trip oracle on the '
-          'implementation. Models tied by correspondence (4.6k cases quick) with zero mismatches.',
+          'refuted witness per guard; flowspec operator lists proved; the flowspec rule length prefix proved for every body length 1..4095 in both forms '
+          '(C07_flowspec_length_prefix_*); EVPN types 1-4 covered by the round-trip oracle on the implementation. Models tied by correspondence (5.4k cases '
+          'quick, incl. exact encoded sizes around every length-form switch: rule body 240, attribute 255/256, 65535/65536) with zero mismatches.',
   'note': 'guards = known findings (IPv6 values < 2^32 render as IPv4, label 0 without bottom-of-stack, deeper label stacks in VPN, trailing double ::/0, '
           'labeled-unicast unreach paths, flowspec /0 and tcp-flags) listed in known_findings.json; EVPN has no Coq model; netaddr text<->integer conversions trusted',
   'technique': 'Coq proof (round-trip theorems per family, refutation witnesses) + model/implementation correspondence via vm_compute + round-trip oracle',
@@ -106,21 +107,26 @@ CHECKS['C11'] = {
   'technique': 'Coq proof (progress per loop, induction) + source inventory translator (fail-closed) + exhaustive short-input / mutation runs under CPU alarm',
 }
 CHECKS['C12'] = {
-  'text': 'The full statement (at most one live connection or attempt) is REFUTED by a kernel-checked 4-event witness (retry timer fires while an attempt is pending: '
-          'known finding C12-retry-while-connecting). Proved for every decoder behaviour, world and event: every message written in a step goes to the connection the '
-          'FSM tracks (C12_writes_to_tracked). The oracle checks live<=1, writes-to-tracked and no-open-untracked-connection after every step of an exhaustive '
-          'de-duplicated exploration with retry time below/equal/above the connect timeout; every explored path is replayed on the Coq model.',
-  'note': 'partial: the at-most-one clause holds only outside the two known findings (C12-retry-while-connecting, C12-start-while-connecting), which is established '
-          'by exploration, not by a theorem; Twisted stub connector (no timeout of its own: the driver fails attempts)',
-  'technique': 'Coq proof (writes-to-tracked, generic preservation over generated FSM) + kernel-checked refutation witness + exploration correspondence',
+  'text': 'The full statement is REFUTED by kernel-checked witnesses (connect-retry expiry, or manual start, while an attempt is pending: known findings '
+          'C12-retry-while-connecting, C12-start-while-connecting) and PROVED everywhere else: C12_at_most_one_outside_known_findings — along every event sequence after '
+          'start-up that avoids exactly those two triggers (any bytes, any order of connection results/losses incl. a late completion of a close, any timer order, '
+          'manual stops, API sends, every decoder behaviour) at most one connection is live and every open connection not being closed is the tracked one '
+          '(reachability invariant SR + RP + CD + timer well-formedness; every generated FSM method x state by symbolic execution with a symbolic connection table, '
+          'framing loop by induction). Every message written in a step goes to the tracked connection (C12_writes_to_tracked). The oracle checks live<=1, '
+          'writes-to-tracked, no-open-untracked-connection and the proof obligation "no hold/keepalive timer outside a session" after every step of an exhaustive '
+          'de-duplicated exploration (retry time below/equal/above the connect timeout) and on directed late-close scenarios; every explored path is replayed on the model.',
+  'note': 'model is of the code with fixes 0a14c4f, bdf7c18, 771df94 (three defects found by this proof/check); Twisted stub connector (no timeout of its own: the '
+          'driver fails attempts)',
+  'technique': 'Coq proof (reachability invariant by induction over event lists, per-method symbolic execution, generic preservation) + kernel-checked refutation witnesses + translator + exploration correspondence',
 }
 CHECKS['C13'] = {
   'text': 'Coq theorems for every decoder behaviour: what a stop does (Idle, automatic start off, all timers cancelled: C13_stop_effects; Cease then close when '
           'Established: C13_stop_sends_cease); from the stopped state no event sequence of any length without a manual start writes a message or starts a connection '
-          '(C13_silent_after_stop, induction over event lists); manual start connects at once / is a no-op when up. The full statement is refuted by a witness (stop with '
-          'an attempt in flight: known finding). Oracle: stop issued in every explored abstract state, bounded continuations, then start; traces replayed on the model.',
+          '(C13_silent_after_stop, induction over event lists); a stop issued in ANY world reachable without the C12 departures and with no attempt pending reaches that '
+          'stopped state (C13_stop_reaches_stopped, C13_stop_then_silent); manual start connects at once / is a no-op when up. The full statement is refuted by a witness '
+          '(stop with an attempt in flight: known finding). Oracle: stop issued in every explored abstract state, bounded continuations, then start; traces replayed on the model.',
   'note': 'the stopped state requires no pending attempt and no second open connection at stop time (known findings C13-stop-does-not-abort-attempt, '
-          'C13-stop-leaves-untracked-connection); that a stop in the single-connection regime reaches the stopped state is checked by exploration',
+          'C13-stop-leaves-untracked-connection)',
   'technique': 'Coq proof (symbolic execution of the generated FSM, invariant by induction) + refutation witness + exploration correspondence',
 }
 SESSION_NOTE = ('FSM methods regenerated from yabgp/core/fsm.py on every run (fail-closed translator); protocol.py/factory.py/timer.py glue and the '
